@@ -397,7 +397,48 @@ fn table_cases(ctx: &mut Ctx, s: &QM, f: &[BigInt], reps: usize, bits: u64) {
     }
 }
 
+/// `Pow<BigInt>` with exponents beyond a machine word: elements of finite multiplicative order and
+/// unipotent elements (1 + nilpotent) keep the result small whatever the exponent
+fn gen_pow_beyond_word(ctx: &mut Ctx) {
+    let iv = |v: &[i64]| v.iter().map(|&x| BigInt::from(x)).collect::<Vec<_>>();
+    let rv = |v: &[i64]| v.iter().map(|&x| BigRational::from(BigInt::from(x))).collect::<Vec<_>>();
+    let cases: Vec<(Vec<BigInt>, Vec<BigRational>)> = vec![
+        (iv(&[1, 0, 1]), rv(&[0, 1])),          // i
+        (iv(&[1, 0, 1]), rv(&[0, -1])),         // -i
+        (iv(&[1, 1, 1]), rv(&[0, 1])),          // primitive cube root of unity
+        (iv(&[1, 0, 0, 0, 1]), rv(&[0, 1])),    // primitive 8th root
+        (iv(&[1, 1, 1, 1, 1]), rv(&[0, 0, 1])), // zeta_5^2
+        (iv(&[0, 0, 1]), rv(&[1, 1])),          // 1 + theta, theta^2 = 0
+        (iv(&[0, 0, 0, 1]), rv(&[1, 1])),       // 1 + theta, theta^3 = 0
+        (iv(&[0, 0, 0, 2]), rv(&[1, 0, 1])),    // non-monic modulus
+        (iv(&[-1, 0, 1]), rv(&[0, 1])),         // theta^2 = 1 (reducible modulus)
+        (iv(&[1, 0, 1]), rv(&[1])),             // 1
+        (iv(&[1, 0, 1]), rv(&[-1])),            // -1
+    ];
+    let one = BigInt::one();
+    let exps: Vec<BigInt> = vec![
+        &one << 64,
+        (&one << 64) + 1,
+        (&one << 64) + 3,
+        (&one << 64) - 1,
+        &one << 65,
+        (&one << 65) + (&one << 64) + 2,
+        (&one << 70) + 5,
+        &one << 128,
+        (&one << 128) + (&one << 64) + 7,
+        (&one << 63) + 1,
+    ];
+    for (f, a) in &cases {
+        for e in &exps {
+            if ctx.thorough || ctx.rng.chance(1, 2) {
+                do_powbig(ctx, f, a, e);
+            }
+        }
+    }
+}
+
 pub fn generate(ctx: &mut Ctx) {
+    gen_pow_beyond_word(ctx);
     // ---- quotient ring, exhaustive small: deg f = 2, coefficients in [-1, 1], lc in {1, 2, -1}
     let lcs: Vec<i64> = if ctx.thorough { vec![1, 2, -1, 3] } else { vec![1, 2] };
     let small = crate::c09::all_vecs(2, 1);
